@@ -300,6 +300,47 @@ fn instances(spec: &RuleSpec, rg: &Ranges) -> Vec<Vec<u32>> {
     out
 }
 
+/// Instances at the width boundaries the width arithmetic of the rules special-cases (`wlsh` saturates from a
+/// 32-bit shift amount on; 63/64/65 are the word boundary): one operand width W from {31,32,33,63,64,65}, the other
+/// operand widths from {1,2}, derived widths from {1, 2, W, W+1, W+2, W+3, 2W, 2W+2}, both signs. Operand values of
+/// these instances come from the boundary alphabet (see check_instance).
+fn wide_instances(spec: &RuleSpec, thorough: bool) -> Vec<Vec<u32>> {
+    let opw: Vec<usize> = spec.vars.iter().enumerate().filter(|(_, (_, k))| *k == Kind::OpW).map(|(i, _)| i).collect();
+    let wides: &[u32] = if thorough { &[31, 32, 33, 63, 64, 65] } else { &[32, 33, 64] };
+    let mut out: Vec<Vec<u32>> = vec![];
+    for &wi in opw.iter() {
+        for &w in wides {
+            let der: Vec<u32> = vec![1, 2, w, w + 1, w + 2, w + 3, 2 * w, 2 * w + 2];
+            let mut cur: Vec<Vec<u32>> = vec![vec![]];
+            for (i, (_, k)) in spec.vars.iter().enumerate() {
+                let choices: Vec<u32> = match k {
+                    Kind::Sign => vec![0, 1],
+                    Kind::OpW => {
+                        if i == wi {
+                            vec![w]
+                        } else {
+                            vec![1, 2]
+                        }
+                    }
+                    Kind::DerW => der.clone(),
+                    Kind::Sym => unreachable!(),
+                };
+                let mut next = Vec::with_capacity(cur.len() * choices.len());
+                for p in cur.iter() {
+                    for c in choices.iter() {
+                        let mut q = p.clone();
+                        q.push(*c);
+                        next.push(q);
+                    }
+                }
+                cur = next;
+            }
+            out.extend(cur);
+        }
+    }
+    out
+}
+
 // ------------------------------------------------------------------------------------------
 // one rule instance
 
@@ -395,6 +436,12 @@ fn check_instance(r: &ArithRewrite, spec: &RuleSpec, asg: &[(Var, u32)]) -> Outc
     }
     named.sort();
     if l == rr {
+        return Outcome::Holds(false, 0);
+    }
+    // instances at the width boundaries can ask for intermediate results of 2^31 bits and more (wlsh): those are
+    // lowered and type-checked above but not evaluated
+    let widest = nodes_of(&ctx, &[l, rr]).iter().map(|n| match type_ref(&ctx, *n) { Ok(patronus::expr::Type::BV(w)) => w, _ => 0 }).max().unwrap_or(0);
+    if widest > 4096 {
         return Outcome::Holds(false, 0);
     }
     let bits: u32 = named.iter().map(|x| x.1).sum();
@@ -524,7 +571,10 @@ fn run_rules(tier: Tier, rep: &Report, budget: &Budget) {
     for r in rules.iter() {
         let spec = analyze_rule(r);
         let rg = ranges(r, &spec, opmax, tier.is_thorough());
-        let inst = instances(&spec, &rg);
+        let mut inst = instances(&spec, &rg);
+        let n_narrow = inst.len();
+        inst.extend(wide_instances(&spec, tier.is_thorough()));
+        rep.add("instances_at_width_boundaries", (inst.len() - n_narrow) as u64);
         let stop = AtomicBool::new(false);
         let name = spec.name.clone();
         let failures: std::sync::Mutex<RuleFailures> = std::sync::Mutex::new(RuleFailures::new());
